@@ -5,6 +5,7 @@ from __future__ import annotations
 import ast
 
 from sa.astutil import (
+    loop_exits,
     arg_or_kw,
     call_name,
     calls_in,
@@ -33,7 +34,7 @@ EXPLANATION = (
     "the has / model-enabled / placeholder checks for every enabled step, and the stored value is "
     "the literal conversion of the given one."
 )
-NOT_DECIDED = ["eval_entry's literal conversion over the space of strings", "read-back for properties whose setters derive other fields by design (APD characteristics)", "calibration keys addressing a disabled model (statement speaks of sweeps)"]
+NOT_DECIDED = ["which Python literal a given text denotes (ast.literal_eval's own semantics; R7 decides only that the text reaches literal_eval unaltered unless it is not a literal, in which case it is quoted)", "read-back for properties whose setters derive other fields by design (APD characteristics)", "calibration keys addressing a disabled model (statement speaks of sweeps)"]
 ASSUMPTIONS = ["setattr on an object without the attribute creates it (hence the has() guard is required)"]
 
 PROC = "pyxel.pipelines.processor:Processor"
@@ -257,7 +258,7 @@ def r4_validate_steps(ctx):
         cj = [norm(c) for c in conjuncts(g_ph[0].test)]
         ok = any(c.startswith("any(") and f"{sv}.values" in c for c in cj) and "not isinstance(self.parameter_mode, CustomMode)" in cj
     ctx.check(ok, f.qual + "#placeholder", "'_' outside custom mode raises" if ok else "placeholder check changed", where=f, node=g_ph[0] if g_ph else lp)
-    for n in walk_ordered(lp):
+    for n in loop_exits(lp):
         if isinstance(n, (ast.Break, ast.Return)) or isinstance(n, ast.Continue):
             ctx.fail(f.qual + "#exit", f"{type(n).__name__.lower()} inside the validation loop skips checks", where=f, node=n)
 
